@@ -32,6 +32,10 @@ CLAIMED = {
    text="Intake.tla states the acceptance predicate rule by rule with every limit expressed relative to its own protocol parameter; TLC enumerates the valid baseline of each operation type and every combination of up to MaxDev deviations; the concretiser builds real bytes and a real protocol configuration in which exactly the named classes hold (each parameter set independently, limits hit exactly at and one past their boundary) and the real parser's verdict must equal Accept. In addition ~3000 structurally mutated / truncated / random inputs go through Parse, ParseOperation(batch), GetRevealValue, GetCommitment, ParseDID and must yield a value or an error, never a panic."),
  "C11": dict(engine="ClientReq", design="4/C11", technique="TLA+ ClientReq product space + SidetreeCore effect as oracle; real client builders -> real parser (parse-back equality) -> real processor",
    text="The full product of builder inputs (type, five key types / signature algorithms, two hash algorithms, window forms, patch-list classes, anchor-origin forms, nonce) is enumerated; each request is built by the real client library, must be accepted by a parser enabling exactly that algorithm, must parse back to the inputs field by field, and - anchored inside its window - must produce the state change SidetreeCore computes."),
+ "C13": dict(engine="BatchFiles", design="4/C13", technique="TLA+ BatchFiles model (Write/Read; TLC: RoundTrip, Accounting, CountAgrees, OrderCRUD over all batch compositions) + replay of every batch through the real OperationHandler and OperationProvider",
+   text="BatchFiles.tla specifies the handler's file layout and the provider's positional read; TLC checks Read(Write(b)) = Expected(b) for every batch of <= 3 (thorough 4) queued operations over 3 suffixes x 4 types x expired flag and emits each; the harness builds the batch from client-style requests, lets the real handler write the files and the real provider read them back, and compares position by position (type, suffix, JSON-equal request, anchor origin), the anchor count and the included/deferred/expired accounting."),
+ "C14": dict(engine="BatchFiles", design="4/C14", technique="TLA+ BatchFiles model with a Mutate action over file sets (TLC: ReadSafe; verdict per mutated file set) + the same mutations applied to the real files and read by the real provider under panic capture; opaque fault classes and byte-level channel against the spec'd postcondition",
+   text="For every enumerated batch, every structural mutation of its file set (entries dropped / duplicated / retargeted, deltas swapped, references removed or added, anchor count changed; thorough: pairs) and every opaque fault class per file (oversize against its own limit, decompression bomb, over-long URI, null / type-confused members, CAS failure with and without alternate source, garbage anchors) is applied to the REAL files written by the real handler; the real provider must never panic, must reject every case the specification's Read / MustReject rejects, and any successful read must satisfy the postcondition. Seeded truncations, bit flips and byte substitutions of compressed and decompressed files go through the same postcondition channel."),
 }
 
 def check(pid, m):
